@@ -30,7 +30,7 @@ ResetAll(e) ==
   /\ tlock' = [s \in Sess |-> [t \in Streams |-> None]]
   /\ x' = [e2 \in Exch |-> NoExch]
   /\ recv' = [e2 \in Exch |-> <<>>]
-  /\ h' = [s \in Sess |-> [r \in Reqs |-> [pc |-> "none", n |-> 0, q |-> 0, b |-> 0]]]
+  /\ h' = [s \in Sess |-> [r \in Reqs |-> [pc |-> "none", n |-> 0, q |-> 0, b |-> 0, bp |-> {}]]]
   /\ wr' = [s \in Sess |-> [o \in Origins |-> NoWrite]]
   /\ nsa' = [s \in Sess |-> 0]
   /\ issued' = [s \in Sess |-> [t \in Streams |-> {}]]
